@@ -9,10 +9,12 @@ import (
 	"crypto/sha256"
 	"encoding/binary"
 	"fmt"
+	"strings"
 	"time"
 
 	sdkmath "cosmossdk.io/math"
 	sdk "github.com/cosmos/cosmos-sdk/types"
+	"github.com/cosmos/cosmos-sdk/x/authz"
 
 	betkeeper "github.com/sge-network/sge/x/bet/keeper"
 	bettypes "github.com/sge-network/sge/x/bet/types"
@@ -70,6 +72,7 @@ const (
 	tkNewPromo  = 6
 	tkFunder    = 7
 	tkStranger  = 8 // named in KYC data that does not belong to the actor
+	tkDelegate  = 9 // holds authz grants of the depositor
 )
 
 const (
@@ -117,6 +120,7 @@ type tkWorld struct {
 	vault   []string // exact vault strings
 	vkeys   []int    // pool key of every vault position
 	removed int
+	everIn  map[int]bool
 	foreign int
 	nextKey int // next unused pool key
 
@@ -211,6 +215,12 @@ func (w *tkWorld) betClaims(kv kycVar, bettor int, oddsIdx int) map[string]inter
 	return c
 }
 
+func (w *tkWorld) houseClaimsFor(kv kycVar, actor int) map[string]interface{} {
+	c := w.houseClaims(kv, actor)
+	c["depositor_address"] = w.addr(actor)
+	return c
+}
+
 func (w *tkWorld) houseClaims(kv kycVar, actor int) map[string]interface{} {
 	c := map[string]interface{}{}
 	if !kv.absent {
@@ -248,7 +258,7 @@ func (w *tkWorld) proposalClaims(keys []int, leader int) map[string]interface{} 
 
 // newTkWorld prepares the state on the current cache context of e.
 func newTkWorld(e *Env, pool *ovmPool, out *Out, r *Rng, h int) *tkWorld {
-	w := &tkWorld{e: e, pool: pool, out: out, r: r, h: h, removed: -1, foreign: ovmPoolKeys - 1, height: e.Height + 1}
+	w := &tkWorld{e: e, pool: pool, out: out, r: r, h: h, removed: -1, everIn: map[int]bool{}, foreign: ovmPoolKeys - 1, height: e.Height + 1}
 	w.msrv = marketkeeper.NewMsgServerImpl(*e.App.MarketKeeper)
 	w.hsrv = housekeeper.NewMsgServerImpl(*e.App.HouseKeeper)
 	w.bsrv = betkeeper.NewMsgServerImpl(*e.App.BetKeeper)
@@ -292,6 +302,12 @@ func newTkWorld(e *Env, pool *ovmPool, out *Out, r *Rng, h int) *tkWorld {
 			Amount: sdkmath.NewInt(200_000), Ticket: w.validTok(w.houseClaims(kycActor(), tkDepositor))})
 		return err
 	})
+	// the depositor lets the delegate deposit and withdraw on its behalf
+	for _, a := range []authz.Authorization{&housetypes.DepositAuthorization{SpendLimit: sdkmath.NewInt(1_000_000)},
+		&housetypes.WithdrawAuthorization{WithdrawLimit: sdkmath.NewInt(1_000_000)}} {
+		exp := time.Unix(w.now+1_000_000, 0).UTC()
+		must(e.App.AuthzKeeper.SaveGrant(e.Ctx, e.Accts[tkDelegate], e.Accts[tkDepositor], a, &exp))
+	}
 	// subaccounts of the subaccount owner and of the reward receiver
 	for _, o := range []int{tkSubOwner, tkReceiver} {
 		owner := o
@@ -336,32 +352,72 @@ func (w *tkWorld) promoConf(cap int32) rewardtypes.PromoterConf {
 	return rewardtypes.PromoterConf{CategoryCap: []rewardtypes.CategoryCap{{Category: rewardtypes.RewardCategory_REWARD_CATEGORY_SIGNUP, CapPerAcc: cap}}}
 }
 
-// rotate drives a real key-change proposal to approval: the current leader is dropped, a fresh key joins, the
-// new leader is one of the remaining old keys or the fresh one. Returns false if the vault did not change.
+// rotate drives a real key-change proposal to approval: the current leader string is dropped, a fresh key joins,
+// the new leader is one of the remaining old keys or the fresh one; the kept keys are re-submitted in a random
+// textual encoding. `exotic`: the new list additionally holds a second encoding of one of its keys (the tree as it
+// is accepts that, see C14); if the tree refuses it the plain list is proposed instead. Returns false if the vault
+// did not become the proposed one.
 func (w *tkWorld) rotate() bool {
 	old := append([]int{}, w.vkeys...)
-	oldLeader := old[0]
 	keys := append([]int{}, old[1:]...)
 	keys = append(keys, w.nextKey)
 	w.nextKey++
 	if w.nextKey > w.foreign-2 {
 		panic("ticket suite: key pool exhausted (at most two rotations per history)")
 	}
+	variants := []int{0, 1, 2, 3}
+	var strs []string
+	seen := map[int]bool{}
+	var uniq []int
+	for _, k := range keys {
+		if seen[k] {
+			continue // a key that was registered twice is kept once
+		}
+		seen[k] = true
+		uniq = append(uniq, k)
+		strs = append(strs, w.pool.str[k][variants[w.r.Intn(4)]])
+	}
+	keys = uniq
 	leader := w.r.Intn(len(keys))
-	// any registered key may propose
-	proposer := w.r.Intn(len(old))
-	fc := w.fctx(old[proposer], proposer)
-	tok, _ := forgeValid(fc, w.proposalClaims(keys, leader))
-	w.mustTx("rotation proposal", func(ctx sdk.Context) error {
-		_, err := w.osrv.SubmitPubkeysChangeProposal(sdk.WrapSDKContext(ctx), &ovmtypes.MsgSubmitPubkeysChangeProposalRequest{
-			Creator: w.addr(tkOperator), Ticket: tok})
+	submit := func(ss []string) error {
+		proposer := w.r.Intn(len(old))
+		tok, _ := forgeValid(w.fctx(old[proposer], proposer), map[string]interface{}{"public_keys": ss, "leader_index": leader})
+		err, _ := w.e.Tx(func(ctx sdk.Context) error {
+			_, err := w.osrv.SubmitPubkeysChangeProposal(sdk.WrapSDKContext(ctx), &ovmtypes.MsgSubmitPubkeysChangeProposalRequest{
+				Creator: w.addr(tkOperator), Ticket: tok})
+			return err
+		})
 		return err
-	})
+	}
+	want := append([]int{}, keys...)
+	submitted := false
+	if len(strs) < ovmtypes.MaxPubKeysCount && w.r.Chance(40) {
+		d := w.r.Intn(len(keys))
+		cur := w.pool.ID(strings.TrimSpace(strs[d])) % ovmVariants
+		v := []int{0, 2, 3}[w.r.Intn(3)]
+		if v == cur {
+			v = []int{2, 3, 0}[w.r.Intn(3)]
+		}
+		if v != cur {
+			exotic := append(append([]string{}, strs...), w.pool.str[keys[d]][v])
+			if submit(exotic) == nil {
+				submitted = true
+				want = append(want, keys[d])
+				w.out.Count("rotation.two-encodings-of-one-key")
+			}
+		}
+	}
+	if !submitted {
+		if err := submit(strs); err != nil {
+			panic(fmt.Sprintf("ticket suite: rotation proposal refused: %v", err))
+		}
+	}
 	pid := w.e.App.OVMKeeper.GetProposalStats(w.e.Ctx).PubkeysChangeCount
 	for i := range old {
 		idx := i
 		vt, _ := forgeValid(w.fctx(old[idx], idx), map[string]interface{}{"proposal_id": pid, "vote": ovmtypes.ProposalVote_PROPOSAL_VOTE_YES})
-		w.mustTx("rotation vote", func(ctx sdk.Context) error {
+		// (a second vote of a key registered under two encodings may be refused by a patched tree: not required)
+		_, _ = w.e.Tx(func(ctx sdk.Context) error {
 			_, err := w.osrv.VotePubkeysChange(sdk.WrapSDKContext(ctx), &ovmtypes.MsgVotePubkeysChangeRequest{
 				Creator: w.addr(tkOperator), Ticket: vt, VoterKeyIndex: uint32(idx)})
 			return err
@@ -372,10 +428,23 @@ func (w *tkWorld) rotate() bool {
 		panic("ticket suite: ovm end-blocker panicked: " + what)
 	}
 	w.readVault()
-	if len(w.vkeys) != len(keys) || w.vkeys[0] != keys[leader] {
+	if len(w.vkeys) != len(want) || w.vkeys[0] != keys[leader] {
 		return false
 	}
-	w.removed = oldLeader
+	for _, k := range old {
+		w.everIn[k] = true
+	}
+	// a key that was registered once and is not any more
+	w.removed = -1
+	in := map[int]bool{}
+	for _, k := range w.vkeys {
+		in[k] = true
+	}
+	for k := 0; k < ovmPoolKeys; k++ {
+		if w.everIn[k] && !in[k] {
+			w.removed = k
+		}
+	}
 	return true
 }
 
@@ -458,6 +527,33 @@ func (w *tkWorld) handlers() []*tkHandler {
 			return err
 		}})
 
+	// on behalf of the depositor (authz grant): the KYC data must name the depositor of the payload, not the signer
+	add(&tkHandler{name: "house.Deposit#on-behalf", kyc: true, actor: tkDepositor,
+		claims:     func(kv kycVar) map[string]interface{} { return w.houseClaimsFor(kv, tkDepositor) },
+		misfit:     map[string]interface{}{"kyc_data": "approved"},
+		newPayload: func() interface{} { return &housetypes.DepositTicketPayload{} },
+		run: func(ctx sdk.Context, tok string) error {
+			msg := &housetypes.MsgDeposit{Creator: w.addr(tkDelegate), MarketUID: w.m1, Amount: sdkmath.NewInt(1000), Ticket: tok}
+			if err := msg.ValidateBasic(); err != nil {
+				return err
+			}
+			_, err := w.hsrv.Deposit(wrap(ctx), msg)
+			return err
+		}})
+	add(&tkHandler{name: "house.Withdraw#on-behalf", kyc: true, actor: tkDepositor,
+		claims:     func(kv kycVar) map[string]interface{} { return w.houseClaimsFor(kv, tkDepositor) },
+		misfit:     map[string]interface{}{"kyc_data": "approved"},
+		newPayload: func() interface{} { return &housetypes.WithdrawTicketPayload{} },
+		run: func(ctx sdk.Context, tok string) error {
+			msg := &housetypes.MsgWithdraw{Creator: w.addr(tkDelegate), MarketUID: w.m1, ParticipationIndex: 1,
+				Mode: housetypes.WithdrawalMode_WITHDRAWAL_MODE_PARTIAL, Amount: sdkmath.NewInt(10), Ticket: tok}
+			if err := msg.ValidateBasic(); err != nil {
+				return err
+			}
+			_, err := w.hsrv.Withdraw(wrap(ctx), msg)
+			return err
+		}})
+
 	// ---- bet
 	add(&tkHandler{name: "bet.Wager", kyc: true, actor: tkBettor,
 		claims:     func(kv kycVar) map[string]interface{} { return w.betClaims(kv, tkBettor, 0) },
@@ -474,7 +570,17 @@ func (w *tkWorld) handlers() []*tkHandler {
 		}})
 
 	// ---- ovm
-	propKeys := []int{w.vkeys[0], w.vkeys[1], w.vkeys[2], w.foreign - 1}
+	propKeys := []int{}
+	for _, k := range w.vkeys {
+		dup := false
+		for _, q := range propKeys {
+			dup = dup || q == k
+		}
+		if !dup && len(propKeys) < 3 {
+			propKeys = append(propKeys, k)
+		}
+	}
+	propKeys = append(propKeys, w.foreign-1)
 	add(&tkHandler{name: "ovm.SubmitPubkeysChangeProposal", mode: modeAny,
 		claims: plain(w.proposalClaims(propKeys, 0)), misfit: map[string]interface{}{"public_keys": "all", "leader_index": 0},
 		alt: func() map[string]interface{} { return w.proposalClaims(propKeys, 1) },
